@@ -42,6 +42,10 @@ def run(db, rep, feat, tier):
     r2(db, rep, cache)
     r3(db, rep)
     r4(db, rep, cache, trans, join)
+    r6b(db, rep, trans)
+    # the chains are built from Operation::scalars_read / scalars_written: those sets must be complete (C10.R2c)
+    import props.c10 as c10
+    c10.r2c(db, rep, "R8")
 
 
 def r1_r5(db, rep, cache, trans):
@@ -112,6 +116,29 @@ def r1_r5(db, rep, cache, trans):
     rep.anchor(len(quant) == 1, "one quantifier over written scalars in the kill filter (found %s)" % quant)
     r6.decide(quant[0][0] == "all", "trans|kill_quantifier", quant[0][1],
               "a definition is killed as soon as *any* scalar it writes is overwritten")
+
+
+def r6b(db, rep, trans):
+    from mirterm import bodies_under
+    r = rep.rule("R6b", "K7", "kill is decided on the written scalars alone: the transfer function and its closures do not ask what "
+                 "kind of operation a reaching definition is (a Load or an intrinsic is superseded by a later write exactly like "
+                 "an Assign)")
+    bad = []
+    for fn in bodies_under(db, immediate_trans(trans)):
+        body = db.mir.get(fn)
+        if body is None:
+            continue
+        for i, t in mir_calls(body):
+            c = mir_callee(t) or ""
+            if c.startswith("il::operation::Operation::is_"):
+                bad.append((fn, c, t.get("l"), body))
+    r.decide(not bad, "trans|kind_independent", db.where(bad[0][3], bad[0][2]) if bad else db.where(db.mir[immediate_trans(trans)]),
+             "the kill step calls %s: definitions of other kinds are never killed and stay reported as last writers" % (
+                 last_seg(bad[0][1]) if bad else ""))
+
+
+def immediate_trans(trans):
+    return trans
 
 
 def r7(db, rep, trans):
